@@ -6,6 +6,7 @@ mod util;
 mod tc;
 mod sync;
 mod pr;
+mod rg;
 
 fn main() {
     let args: Vec<String> = std::env::args().collect();
@@ -20,6 +21,8 @@ fn main() {
         "tc-sync" => sync::run(&a),
         "pr-walk" => pr::walk(&a),
         "pr-hist" => pr::hist(&a),
+        "rg-walk" => rg::walk(&a),
+        "rg-hist" => rg::hist(&a),
         other => {
             eprintln!("unknown engine {other}");
             2
